@@ -181,6 +181,27 @@ pub fn check_proj(c: &ProjCase, st: &mut Stats) -> Result<(), String> {
             (Ok(b), e) => return Err(format!("projection of {u} gave {b} but the model says {e:?}")),
         }
     }
+    // members built from fields with second 60 (same instant as the next minute's second 0), in both zones' first types
+    for &(u, ns) in c.us.iter().take(3) {
+        for z in [&c.zone_a, &c.zone_b] {
+            let off = z.types[0].off;
+            let local = u as i128 + off as i128;
+            // the civil second before `local`, searched as hh:mm:60 when it is hh:mm:59
+            let cv = cal::civil_from_unix(local - 1);
+            if cv.s == 59 && local - 1 >= cal::min_unix() as i128 && local <= cal::max_unix() as i128 {
+                if let (Ok(ltt), Ok(y)) = (z.types[0].to_tz(), i32::try_from(cv.y)) {
+                    if let Ok(d) = DateTime::new(y, cv.mo as u8, cv.d as u8, cv.h as u8, cv.mi as u8, 60, ns % 1_000_000_000, ltt) {
+                        check_dt(&d)?;
+                        if d.unix_time() != u {
+                            return Err(format!("DateTime::new(..:60) at local {cv:?} offset {off} has unix {} expected {u}", d.unix_time()));
+                        }
+                        st.class("pool_member_with_second_60");
+                        pool.push(d);
+                    }
+                }
+            }
+        }
+    }
     // comparison claims over all pairs of the pool (+ ns neighbours)
     let extra: Vec<DateTime> = pool.iter().filter_map(|d| DateTime::from_timespec_and_local(d.unix_time(), d.nanoseconds().wrapping_add(1) % 1_000_000_000, *d.local_time_type()).ok()).take(4).collect();
     pool.extend(extra);
